@@ -180,7 +180,7 @@ theorem C03_dnf_idempotent {α : Type} (d : DNF α) : dnfNormalize (Filt.ofDNF d
   dnfNormalize_ofDNF d
 
 /-- `_DNF.combine`: the conjunction of the pushed predicate and the filters already on the reader -/
-theorem C03_dnf_combine {α : Type} (t : α → Bool) (a b : Option (DNF α))
+theorem C03_dnf_combine {α : Type} [DecidableEq α] (t : α → Bool) (a b : Option (DNF α))
     (ha : ∀ d, a = some d → d ≠ []) (hb : ∀ d, b = some d → d ≠ []) :
     evalODNF t (dnfCombine a b) = (evalODNF t a && evalODNF t b) :=
   eval_dnfCombine t a b ha hb
@@ -223,7 +223,21 @@ example : extractPq (.or (.and (.atom (.cmp 0 .lt 3)) (.atom (.cmp 1 .ge 2))) (.
     = some [[.cmp 0 .lt 3, .cmp 1 .ge 2], [.cmp 0 .eq 7]] := by decide
 example : extractPq (.and (.or (.atom (.cmp 0 .lt 3)) (.atom (.cmp 1 .ge 2))) (.or (.atom (.cmp 0 .eq 7)) (.atom (.cmp 2 .gt 0))))
     = some [[.cmp 0 .lt 3, .cmp 0 .eq 7], [.cmp 0 .lt 3, .cmp 2 .gt 0], [.cmp 1 .ge 2, .cmp 0 .eq 7], [.cmp 1 .ge 2, .cmp 2 .gt 0]] := by decide
+-- equal operands collapse (frozenset): `(x | y) & (y | x)` stays `x | y`
+example : extractPq (.and (.or (.atom (.cmp 0 .lt 3)) (.atom (.cmp 1 .ge 2))) (.or (.atom (.cmp 1 .ge 2)) (.atom (.cmp 0 .lt 3))))
+    = some [[.cmp 0 .lt 3], [.cmp 1 .ge 2]] := by decide
 example : keep3 (fun c => if c = 0 then none else some 5) (.or (.atom (.cmp 0 .lt 3)) (.atom (.cmp 1 .ge 2))) = true := by decide
+
+-- non-vacuity of C03_reader_nulls: a negation-free formula over null-compatible atoms, a row with a null
+def exReader : T Atom := .or (.atom (.cmp 0 .lt 3)) (.and (.atom (.isna 0 false)) (.atom (.isin 1 false [5, 6])))
+example : exReader.negFree = true ∧ (∀ a ∈ exReader.atoms, a.NullCompatible = true)
+    ∧ keep3 (fun c => if c = 0 then none else some 5) exReader = true := by decide
+-- non-vacuity of C03_dnf_combine: both sides present and non-empty
+example : dnfCombine (some [[Atom.cmp 0 .lt 3], [Atom.cmp 1 .ge 2]]) (some [[Atom.cmp 2 .eq 1]])
+    = some [[.cmp 0 .lt 3, .cmp 2 .eq 1], [.cmp 1 .ge 2, .cmp 2 .eq 1]] := by decide
+-- n-ary normalize: _And{ _Or{x, y}, z, _Or{_And{x, z}} }
+example : dnfNormalize (Filt.andS [.orS [.tup 1, .tup 2], .tup 3, .orS [.andS [.tup 1, .tup 3]]] : Filt Nat)
+    = [[1, 3, 1, 3], [2, 3, 1, 3]] := by decide
 
 /-! ### joins -/
 
